@@ -126,9 +126,22 @@ fn calculate_selection<'a>(
     type_id: TypeId,
     options: &'a GraphQLClientCodegenOptions,
 ) {
+    calculate_selection_into(context, selection_set, struct_id, type_id, options, true)
+}
+
+/// `sole_selection` is false when `struct_id` also receives fields from other selection sets
+/// (several inline fragments on the same variant): it cannot be replaced by an alias then.
+fn calculate_selection_into<'a>(
+    context: &mut ExpandedSelection<'a>,
+    selection_set: &[SelectionId],
+    struct_id: ResponseTypeId,
+    type_id: TypeId,
+    options: &'a GraphQLClientCodegenOptions,
+    sole_selection: bool,
+) {
     // If the selection only contains a fragment, replace the selection with
     // that fragment.
-    if selection_set.len() == 1 {
+    if sole_selection && selection_set.len() == 1 {
         if let Selection::FragmentSpread(fragment_id) =
             context.query.query.get_selection(selection_set[0])
         {
@@ -219,15 +232,18 @@ fn calculate_selection<'a>(
                         }
                     }
 
+                    let sole_selection = variant_selections.len() == 1;
+
                     for (_selection_id, selection, variant_selection) in variant_selections {
                         match variant_selection {
                             VariantSelection::InlineFragment(_) => {
-                                calculate_selection(
+                                calculate_selection_into(
                                     context,
                                     selection.subselection(),
                                     struct_id,
                                     *variant_type_id,
                                     options,
+                                    sole_selection,
                                 );
                             }
                             VariantSelection::FragmentSpread((fragment_id, fragment)) => context
